@@ -304,11 +304,11 @@ def install(ex):
             xs = drain(a[0]); yes, no = [], []
             for x in xs: (yes if truth(call_closure(a[1], [Ref([x], 0)], callee)) else no).append(x)
             return TupleV([VecV(yes), VecV(no)])
-        if re.match(r"^<(std::)?(ops::)?Range<usize> as Iterator>::next$", c):
+        if re.match(r"^<(std::)?(ops::)?Range<(usize|i32|u32|i64|isize)> as Iterator>::next$", c):
             r = deref(a[0]); s, e = r.fields
             if s < e: r.fields[0] = s + 1; return opt(s)
             return opt()
-        if re.match(r"^<(std::ops::)?Range<usize> as IntoIterator>::into_iter$", c): return a[0]
+        if re.match(r"^<(std::ops::)?Range<(usize|i32|u32|i64|isize)> as IntoIterator>::into_iter$", c): return a[0]
         # ---------------- strings
         if c in ("String::new", "std::string::String::new"): return ""
         if c.endswith("String::push_str") or c.endswith("String::push"):
